@@ -218,7 +218,11 @@ func runDKGWith[G algebra.PrimeGroupElement[G, S], S algebra.PrimeFieldElement[S
 	}
 	probes["family_"+spec.kind]++
 	sample := map[string]any{"workload": "dkg", "config": class, "policy": spec.desc, "trace_head": head(trace, 10), "steps": stats.Steps}
-	return harness.Outcome{Violation: viol, Class: class, NonTrivial: nontrivial, Trace: trace, Stats: stats, Probes: probes, Sample: sample}
+	dig := ""
+	for _, f := range facts {
+		dig += fmt.Sprintf("%x|", f.pkBytes)
+	}
+	return harness.Outcome{Violation: viol, Class: class, NonTrivial: nontrivial, Trace: trace, Stats: stats, Probes: probes, Sample: sample, Digest: dig}
 }
 
 // RunDKG dispatches on the group named in the workload.
